@@ -31,6 +31,11 @@ Inductive case :=
    valid index), GetRX1ChannelIndexForUplinkChannelIndex(ch),
    GetRX1FrequencyForUplinkFrequency(that frequency) *)
 | CRx1Ch (i : N) (ch : Z) (o_up : option Z) (o_idx o_freq : outcome Z)
+(* after the AddChannel history [ops] (errs: which calls returned an error) the band has [n]
+   uplink channels; uplink channel [ch] has frequency [f];
+   o_idx = GetRX1ChannelIndexForUplinkChannelIndex(ch), o_down = GetDownlinkChannel(that
+   index).Frequency (Err when o_idx is not a value), o_freq = GetRX1FrequencyForUplinkFrequency(f) *)
+| CRx1ChHist (i : N) (ops : list (Z * Z * Z)) (errs : list bool) (n ch f : Z) (o_idx o_down o_freq : outcome Z)
 (* GetRX1FrequencyForUplinkFrequency on an arbitrary frequency *)
 | CRx1Freq (i : N) (f : Z) (o : outcome Z)
 (* GetPingSlotFrequency(devaddr, beacon time in ns) *)
@@ -69,6 +74,28 @@ Definition check (c : case) : N :=
       code ((negb (is_ok (get_uplink_channel t ch)) || (ch <? 0))
             && oz_eqb (get_rx1_channel_index cfg ch) o_idx) true
     end
+  | CRx1ChHist i ops errs n ch f o_idx o_down o_freq =>
+    let cfg := cfg_at i in
+    let r := add_channels (c_tab cfg) ops in
+    let t' := fst r in
+    let cfg' := with_tables cfg t' in
+    code (list_eqb Bool.eqb (snd r) errs && (zlen (t_up t') =? n)
+          && match get_uplink_channel t' ch with Ok u => ch_freq u =? f | _ => false end
+          && oz_eqb (get_rx1_channel_index cfg' ch) o_idx
+          && oz_eqb (match o_idx with
+                     | Ok j => match get_downlink_channel t' j with
+                               | Ok d => Ok (ch_freq d)
+                               | Err => Err
+                               | Panic => Panic
+                               | OutOfFuel => OutOfFuel
+                               end
+                     | _ => Err
+                     end) o_down
+          && oz_eqb (get_rx1_frequency cfg' f) o_freq)
+         (match region_of (c_name cfg) with
+          | Some reg => rx1_channel_obs_ok reg ch f o_idx o_down o_freq
+          | None => false
+          end)
   | CRx1Freq i f o =>
     code (oz_eqb (get_rx1_frequency (cfg_at i) f) o) (negb (is_panic o))
   | CPing i devaddr beacon o =>
